@@ -17,12 +17,17 @@ import (
 )
 
 type c10Op struct {
-	Op   string `json:"op"`             // send raw ack peer_r
+	Op   string `json:"op"`             // send raw ack peer_r session
 	Kind int    `json:"kind,omitempty"` // send: 0 stanza 1 stanza.SMRequest 2 stanza.SMAnswer 3 *stanza.SMRequest 4 *stanza.SMAnswer
 	Body string `json:"body,omitempty"` // stanza body / raw string (a raw <r/> or <a/> of stream management is recognised by c10RawKind)
 	H    int    `json:"h,omitempty"`
 	Big  bool   `json:"big,omitempty"`  // ack: h = 2^63 + H (beyond the signed range)
 	Fail bool   `json:"fail,omitempty"` // send/raw: the transport refuses this write (Send returns the error)
+	// ack: write number FailAt (from 1) of the retransmission this acknowledgement causes is refused by the transport (0: none)
+	FailAt int `json:"fail_at,omitempty"`
+	// session: the client connects again (a new connection, the server refuses to resume the old session) and
+	// the server's <enabled/> carries this resume attribute (spellings as c10In.Resume)
+	Resume string `json:"resume,omitempty"`
 }
 type c10In struct {
 	Ops        []c10Op `json:"ops"`
@@ -30,6 +35,38 @@ type c10In struct {
 	Stall      []int   `json:"stall,omitempty"`      // acknowledgements h1,h2,... arriving (each on its own goroutine, as Client.recv routes them) while the retransmission triggered by <a h='0'/> is stalled in a blocking write; Ops are the sends made before
 	Connect    bool    `json:"connect,omitempty"`    // the session is negotiated by the real Client.Connect (scripted server on the stub): its initial <presence/>, written after <enabled/>, is the first stanza of the session
 	Race       int     `json:"race,omitempty"`       // 1,2: two senders A, B; A's write is stalled by the transport, B is started meanwhile, then A goes on (1: A=SendRaw B=Send, 2: A=Send B=SendRaw); ops follow
+	Resume     string  `json:"resume,omitempty"`     // Connect: the resume attribute of the server's <enabled/>: "" = resume='true', "-" = no attribute, "empty" = resume='', anything else = that value
+}
+
+// c10Granted: does an <enabled/> with this resume attribute grant resumption? The harness's own table of the spellings
+// the client accepts as true (the documented set of strconv.ParseBool); everything else, a missing attribute included, does not.
+func c10Granted(resume string) bool {
+	switch resume {
+	case "", "1", "t", "T", "TRUE", "true", "True":
+		return true
+	}
+	return false
+}
+
+func c10ResumeAttr(resume string) string {
+	switch resume {
+	case "":
+		return " resume='true'"
+	case "-":
+		return ""
+	case "empty":
+		return " resume=''"
+	}
+	return " resume='" + resume + "'"
+}
+
+var c10Resumes = []string{"", "true", "1", "t", "T", "TRUE", "True", "-", "false", "0", "f", "False", "empty", "yes", "no", "tRuE", "2"}
+
+func c10B(b bool) int64 {
+	if b {
+		return 1
+	}
+	return 0
 }
 
 type c10 struct{}
@@ -41,7 +78,7 @@ func (c10) RunFn() string { return "run_C10" }
 func (c10) Workers() int  { return 8 }
 func (c10) Journal() bool { return true }
 func (c10) Rule() string {
-	return "random histories (0-40 ops) over Send(stanza), Send(<r/>), Send(<a/>) by value and by pointer, the server's <r/> answered by the real receive loop, SendRaw(stanza string), SendRaw of a raw stream-management <r/> or <a/> (several spellings), sends whose write the transport refuses, and server <a h/> with h below, equal to, above the number sent, stale, repeated and beyond the signed range (h is unsigned on the wire) through the real Client.Send/SendRaw and Router.route(SMAnswer) on a recording transport, a sixth of them on a session negotiated by the real Client.Connect (its initial presence is the first stanza of the session); after every op the queue (ids, payloads) and the bytes written are compared; plus concurrent senders (8 goroutines) and two senders of which the first is stalled by the transport between numbering and writing (the sequence numbers must follow the order on the wire), followed by acknowledgements, and acknowledgements piling up on their own goroutines behind a retransmission stalled in a blocking write (only what is held afterwards is compared); distinct = op-kind/h-class sequence; non-trivial = at least one ack with stanzas held"
+	return "random histories (0-40 ops) over Send(stanza), Send(<r/>), Send(<a/>) by value and by pointer, the server's <r/> answered by the real receive loop, SendRaw(stanza string), SendRaw of a raw stream-management <r/> or <a/> (several spellings), sends whose write the transport refuses, and server <a h/> with h below, equal to, above the number sent, stale, repeated and beyond the signed range (h is unsigned on the wire) through the real Client.Send/SendRaw and Router.route(SMAnswer) on a recording transport, a sixth of them on a session negotiated by the real Client.Connect (its initial presence is the first stanza of the session) with the server's <enabled/> carrying resume='true', other spellings of true, false, no attribute or garbage (whether resumption is granted makes no difference: stream management is active and every stanza is held), acknowledgements whose retransmission is cut short by a refused write at every position (what was not written stays held, no <r/>), and new connections of the same client in the middle of a history (the old session is not resumed: a new session, numbered from 1, holding whatever this or any earlier <enabled/> said about resumption); after every op the queue (ids, payloads) and the bytes written are compared; plus concurrent senders (8 goroutines) and two senders of which the first is stalled by the transport between numbering and writing (the sequence numbers must follow the order on the wire), followed by acknowledgements, and acknowledgements piling up on their own goroutines behind a retransmission stalled in a blocking write (only what is held afterwards is compared); distinct = op-kind/h-class sequence; non-trivial = at least one ack with stanzas held"
 }
 
 func (c10) Decode(raw json.RawMessage) (interface{}, error) {
@@ -80,6 +117,15 @@ func c10Witnesses() []interface{} {
 		// h beyond the signed range acknowledges everything
 		c10In{Ops: []c10Op{m("m1"), m("m2"), {Op: "ack", Big: true}}},
 		c10In{Ops: []c10Op{m("m1"), m("m2"), {Op: "ack", H: 1}, {Op: "ack", Big: true, H: 5}}},
+		// <enabled/> without resumption: stream management is active all the same, the client holds (fix C10-a1)
+		c10In{Connect: true, Resume: "-", Ops: []c10Op{m("m1"), {Op: "ack", H: 0}, {Op: "raw", Body: "<message id='x'/>"}, {Op: "ack", H: 5}}},
+		c10In{Connect: true, Resume: "false", Ops: []c10Op{m("m1"), {Op: "send", Body: "m2", Fail: true}, {Op: "ack", H: 1}}},
+		c10In{Connect: true, Resume: "1", Ops: []c10Op{m("m1"), {Op: "ack", H: 1}, m("m2"), {Op: "ack", H: 1}}},
+		// a retransmission cut short by a refused write
+		c10In{Ops: []c10Op{m("m1"), m("m2"), m("m3"), {Op: "ack", H: 0, FailAt: 2}, {Op: "ack", H: 1}, {Op: "ack", H: 1, FailAt: 3}, {Op: "ack", H: 2, FailAt: 1}, {Op: "ack", H: 3, FailAt: 1}, m("m4"), {Op: "ack", H: 3}}},
+		// a new connection in the middle: a new session numbered from 1; once resumption was not granted nothing is held any more
+		c10In{Ops: []c10Op{m("m1"), m("m2"), {Op: "session", Resume: "true"}, m("m3"), {Op: "ack", H: 0}, {Op: "session", Resume: "-"}, m("m4"), {Op: "ack", H: 0}, {Op: "session", Resume: "true"}, m("m5"), {Op: "ack", H: 0}}},
+		c10In{Connect: true, Ops: []c10Op{m("m1"), {Op: "session"}, {Op: "ack", H: 1}, m("m2"), {Op: "send", Kind: 1}, {Op: "ack", H: 0}}},
 	}
 }
 
@@ -103,16 +149,34 @@ func (c10) Gen(r *rand.Rand, tier string) []interface{} {
 		l := r.Intn(41)
 		in := c10In{Connect: r.Intn(6) == 0}
 		sent := 0
+		const holding = true
 		if in.Connect {
+			if r.Intn(2) == 0 {
+				in.Resume = c10Resumes[r.Intn(len(c10Resumes))]
+			}
 			sent = 1
+		}
+		sessions := 0
+		if r.Intn(5) == 0 {
+			sessions = 1 + r.Intn(2)
 		}
 		ops := make([]c10Op, 0, l)
 		for j := 0; j < l; j++ {
 			fail := r.Intn(14) == 0
+			if sessions > 0 && r.Intn(l) < 3 {
+				sessions--
+				o := c10Op{Op: "session", Resume: c10Resumes[r.Intn(len(c10Resumes))]}
+				if r.Intn(2) == 0 {
+					o.Resume = ""
+				}
+				ops = append(ops, o)
+				sent = 0
+				continue
+			}
 			switch c := r.Intn(10); {
 			case c < 4:
 				ops = append(ops, c10Op{Op: "send", Body: bodies[r.Intn(len(bodies))] + fmt.Sprint(j), Fail: fail})
-				if !fail {
+				if !fail && holding {
 					sent++
 				}
 			case c < 6:
@@ -121,7 +185,7 @@ func (c10) Gen(r *rand.Rand, tier string) []interface{} {
 					break
 				}
 				ops = append(ops, c10Op{Op: "raw", Body: fmt.Sprintf("<message id='r%d'><body>%s</body></message>", j, "raw"), Fail: fail})
-				if !fail {
+				if !fail && holding {
 					sent++
 				}
 			case c < 7:
@@ -151,7 +215,11 @@ func (c10) Gen(r *rand.Rand, tier string) []interface{} {
 				default:
 					h = r.Intn(sent + 2)
 				}
-				ops = append(ops, c10Op{Op: "ack", H: h, Big: big})
+				o := c10Op{Op: "ack", H: h, Big: big}
+				if r.Intn(5) == 0 {
+					o.FailAt = 1 + r.Intn(sent+2) // up to one past the <r/>: then nothing is refused
+				}
+				ops = append(ops, o)
 			}
 		}
 		in.Ops = ops
@@ -197,22 +265,32 @@ func (c10) Gen(r *rand.Rand, tier string) []interface{} {
 	return out
 }
 
-// the server side of a negotiation with stream management, all of it readable at once (the client reads what it needs)
-const c10Negotiation = clientHeader +
-	"<stream:features><mechanisms xmlns='urn:ietf:params:xml:ns:xmpp-sasl'><mechanism>PLAIN</mechanism></mechanisms></stream:features>" +
-	"<success xmlns='urn:ietf:params:xml:ns:xmpp-sasl'/>" +
-	clientHeader +
-	"<stream:features><bind xmlns='urn:ietf:params:xml:ns:xmpp-bind'/><sm xmlns='urn:xmpp:sm:3'/></stream:features>" +
-	"<iq type='result' id='1'><bind xmlns='urn:ietf:params:xml:ns:xmpp-bind'><jid>u@localhost/r</jid></bind></iq>" +
-	"<enabled xmlns='urn:xmpp:sm:3' id='sm' resume='true'/>"
+// the server side of a negotiation with stream management, all of it readable at once (the client reads what it needs).
+// refusedResume: the client asks to resume an earlier session first and is refused; enabled: the client asks for stream
+// management and gets <enabled/> with this resume attribute.
+func c10Negotiation(refusedResume, enabled bool, resume string) string {
+	s := clientHeader +
+		"<stream:features><mechanisms xmlns='urn:ietf:params:xml:ns:xmpp-sasl'><mechanism>PLAIN</mechanism></mechanisms></stream:features>" +
+		"<success xmlns='urn:ietf:params:xml:ns:xmpp-sasl'/>" +
+		clientHeader +
+		"<stream:features><bind xmlns='urn:ietf:params:xml:ns:xmpp-bind'/><sm xmlns='urn:xmpp:sm:3'/></stream:features>"
+	if refusedResume {
+		s += "<failed xmlns='urn:xmpp:sm:3'><item-not-found xmlns='urn:ietf:params:xml:ns:xmpp-stanzas'/></failed>"
+	}
+	s += "<iq type='result' id='1'><bind xmlns='urn:ietf:params:xml:ns:xmpp-bind'><jid>u@localhost/r</jid></bind></iq>"
+	if enabled {
+		s += "<enabled xmlns='urn:xmpp:sm:3' id='sm'" + c10ResumeAttr(resume) + "/>"
+	}
+	return s
+}
 
 // c10Client: a client on the recording stub with stream management active. connect=false: the session is installed
 // through the hooks and the real receive loop started; connect=true: the public Client.Connect negotiates it (and
 // starts the receive loop itself). skip = number of writes that belong to the negotiation (up to <enable/>).
-func c10Client(connect bool) (c *xmpp.Client, st *stubTransport, router *xmpp.Router, skip int, err error) {
+func c10Client(connect bool, resume string) (c *xmpp.Client, st *stubTransport, router *xmpp.Router, skip int, err error) {
 	script := clientHeader
 	if connect {
-		script = c10Negotiation
+		script = c10Negotiation(false, true, resume)
 	}
 	st = newStub([][]byte{[]byte(script)}, nil)
 	st.feed = make(chan []byte, 4)
@@ -232,12 +310,7 @@ func c10Client(connect bool) (c *xmpp.Client, st *stubTransport, router *xmpp.Ro
 			err = fmt.Errorf("stream management not negotiated")
 			return
 		}
-		ws := st.snapshotWrites()
-		for i, w := range ws {
-			if ns, e := parseCanon([]byte(w.Data)); e == nil && len(ns) == 1 && ns[0].Name.Space == nsSM && ns[0].Name.Local == "enable" {
-				skip = i + 1
-			}
-		}
+		skip = c10AfterEnable(st)
 		if skip == 0 {
 			err = fmt.Errorf("no <enable/> among the writes of Connect")
 		}
@@ -249,6 +322,59 @@ func c10Client(connect bool) (c *xmpp.Client, st *stubTransport, router *xmpp.Ro
 	st.writes, st.nwrites = nil, 0
 	st.mu.Unlock()
 	// the real receive loop answers the server's <r/> (ops "peer_r")
+	go xmpp.VerifRecv(c, make(chan struct{}))
+	return
+}
+
+// c10AfterEnable: the number of writes up to and including the client's <enable/> (0: none was written)
+func c10AfterEnable(st *stubTransport) (skip int) {
+	for i, w := range st.snapshotWrites() {
+		if ns, e := parseCanon([]byte(w.Data)); e == nil && len(ns) == 1 && ns[0].Name.Space == nsSM && ns[0].Name.Local == "enable" {
+			skip = i + 1
+		}
+	}
+	return
+}
+
+// c10NewSession: the client connects again on a new connection (the same Session object, as Client.connect keeps it,
+// bound to the new transport). The server offers stream management, refuses to resume the session the client still
+// has an id of, binds, and - when the harness expects the client to ask (wantEnable) - answers <enable/> with
+// <enabled/> carrying the given resume attribute. The real receive loop is started on the new connection.
+func c10NewSession(c *xmpp.Client, hadID, wantEnable bool, resume string) (st *stubTransport, skip int, err error) {
+	st = newStub([][]byte{[]byte(c10Negotiation(hadID, wantEnable, resume))}, nil)
+	st.feed = make(chan []byte, 4)
+	old := c.Session.SMState
+	xmpp.VerifSetTransport(c, st)
+	xmpp.VerifSetSession(c, old)
+	done := make(chan error, 1)
+	go func() { done <- xmpp.VerifClientConnect(c) }()
+	select {
+	case err = <-done:
+	case <-time.After(3 * time.Second):
+		// the client waits for an answer to something this server was not asked in the harness's account of the
+		// client (an <enable/> from a client that does not hold any more, a second <resume/>, ...): end the connection
+		st.mu.Lock()
+		feed := st.feed
+		st.feed = nil // the caller must not close it again
+		st.mu.Unlock()
+		close(feed)
+		err = fmt.Errorf("the negotiation does not finish: the client waits for an answer the scripted server has no reason to give (%v)", <-done)
+	}
+	if err != nil {
+		return
+	}
+	if c.Session == nil {
+		err = fmt.Errorf("no session after the new connection")
+		return
+	}
+	skip = len(st.snapshotWrites())
+	if at := c10AfterEnable(st); wantEnable && at == 0 {
+		err = fmt.Errorf("the client is configured with stream management and the server offers it, but the client did not ask for it (<enable/>) on this connection")
+	} else if !wantEnable && at != 0 {
+		err = fmt.Errorf("unexpected <enable/> on the new connection")
+	} else if wantEnable {
+		skip = at
+	}
 	go xmpp.VerifRecv(c, make(chan struct{}))
 	return
 }
@@ -304,12 +430,25 @@ func c10Canon(s string) string { return canonOrRaw(s) }
 // pushes are observed as one step: the writes in the order the transport received them, the queue afterwards.
 func (c10) Run(inp interface{}) Sx {
 	in := inp.(c10In)
-	c, st, router, seen, err := c10Client(in.Connect)
+	c, st, router, seen, err := c10Client(in.Connect, in.Resume)
+	feeds := []chan []byte{st.feed}
+	closeFeeds := func() {
+		if c.Session == nil {
+			// a connection attempt that failed leaves the client without session object; the receive loops
+			// that end now read it (DESIGN 10.6)
+			xmpp.VerifSetSession(c, xmpp.SMState{})
+		}
+		for _, f := range feeds {
+			close(f)
+		}
+	}
 	if err != nil {
-		close(st.feed)
+		closeFeeds()
 		return L(SBytes("setup-failed"), SBytes(err.Error()))
 	}
-	q := c.Session.SMState.UnAckQueue
+	// the harness's own account of what the client must be doing (for the scripts of later connections only): it is
+	// configured with stream management, so it asks for it on every connection, after trying to resume the session it has an id of
+	const holding, hadID = true, true
 	var steps []Sx
 	snapshot := func() Sx {
 		ws := st.snapshotWrites()
@@ -326,11 +465,13 @@ func (c10) Run(inp interface{}) Sx {
 		}
 		seen = len(ws)
 		var qx []Sx
-		q.RLock()
-		for _, e := range q.Uslice {
-			qx = append(qx, L(Zi(e.Id), SBytes(c10Canon(e.Stz))))
+		if q := c.Session.SMState.UnAckQueue; q != nil { // nil: a session on which stream management was not enabled holds nothing
+			q.RLock()
+			for _, e := range q.Uslice {
+				qx = append(qx, L(Zi(e.Id), SBytes(c10Canon(e.Stz))))
+			}
+			q.RUnlock()
 		}
-		q.RUnlock()
 		return L(LS(wx), LS(qx))
 	}
 	if in.Connect {
@@ -389,7 +530,7 @@ func (c10) Run(inp interface{}) Sx {
 			select {
 			case <-d:
 			case <-time.After(3 * time.Second):
-				close(st.feed)
+				closeFeeds()
 				return L(SBytes("senders-deadlocked"))
 			}
 		}
@@ -411,7 +552,40 @@ func (c10) Run(inp interface{}) Sx {
 			if o.Big {
 				h += 1 << 63
 			}
+			armed := 0
+			if o.FailAt > 0 {
+				st.mu.Lock()
+				armed = st.nwrites + o.FailAt
+				st.writeFailAt[armed] = true
+				st.mu.Unlock()
+			}
 			xmpp.VerifRoute(router, c, stanza.SMAnswer{H: h})
+			if armed > 0 {
+				st.mu.Lock()
+				delete(st.writeFailAt, armed) // not reached: the retransmission had fewer writes
+				st.mu.Unlock()
+			}
+		case "session":
+			// the receive loop of the current connection takes that connection's decoder when it starts: make sure
+			// it has (it answers a request of the server) before the transport is handed to the next connection
+			before := len(st.snapshotWrites())
+			st.feed <- []byte("<r xmlns='urn:xmpp:sm:3'/>")
+			for k := 0; k < 40000 && len(st.snapshotWrites()) == before; k++ {
+				time.Sleep(50 * time.Microsecond)
+			}
+			if len(st.snapshotWrites()) == before {
+				closeFeeds()
+				return L(SBytes("setup-failed"), SBytes("the receive loop does not answer"))
+			}
+			st2, skip, err := c10NewSession(c, hadID, holding, o.Resume)
+			if st2.feed != nil {
+				feeds = append(feeds, st2.feed)
+			}
+			if err != nil {
+				closeFeeds()
+				return L(SBytes("setup-failed"), SBytes("new connection: "+err.Error()))
+			}
+			st, seen = st2, skip
 		case "peer_r":
 			// the server asks for an acknowledgement: Client.recv writes <a/> through Client.Send
 			before := len(st.snapshotWrites())
@@ -446,13 +620,13 @@ func (c10) Run(inp interface{}) Sx {
 		select {
 		case <-done:
 		case <-time.After(3 * time.Second):
-			close(st.feed)
+			closeFeeds()
 			return L(SBytes("acks-deadlocked"))
 		}
 		fin := snapshot()
 		steps = append(steps, L(L(), fin.L[1])) // the order of the writes depends on the schedule: only what is held is compared
 	}
-	close(st.feed)
+	closeFeeds()
 	return LS(steps)
 }
 
@@ -463,16 +637,28 @@ func (p c10) Input(inp interface{}) Sx { return p.InputObs(inp, L()) }
 func (p c10) InputObs(inp interface{}, obs Sx) Sx {
 	in := inp.(c10In)
 	var ops []Sx
+	const holding = true
+	at := 0 // index of the next observed step
 	if in.Connect {
-		// the initial presence of Connect: an ordinary stanza sent on the session
-		ops = append(ops, L(Z(1), Z(0), SBytes(c10Canon(c10Presence))))
+		// the <enabled/> of the negotiation, then the initial presence of Connect: an ordinary stanza sent on the
+		// session (both observed as one step: what Connect wrote after <enable/>)
+		ops = append(ops, L(Z(10), LS([]Sx{L(Z(5), Z(c10B(c10Granted(in.Resume)))), L(Z(1), Z(0), SBytes(c10Canon(c10Presence)))})))
+		at = 1
 	}
 	if in.Concurrent > 0 || in.Race > 0 {
 		var ds []Sx
-		if at := len(ops); len(obs.L) > at && len(obs.L[at].L) == 2 {
-			for _, e := range obs.L[at].L[1].L {
-				if len(e.L) == 2 {
-					ds = append(ds, e.L[1])
+		if len(obs.L) > at && len(obs.L[at].L) == 2 {
+			if holding {
+				for _, e := range obs.L[at].L[1].L {
+					if len(e.L) == 2 {
+						ds = append(ds, e.L[1])
+					}
+				}
+			} else { // nothing is held: the order is that of the writes
+				for _, w := range obs.L[at].L[0].L {
+					if len(w.L) == 2 {
+						ds = append(ds, w.L[1])
+					}
 				}
 			}
 		}
@@ -494,11 +680,18 @@ func (p c10) InputObs(inp interface{}, obs Sx) Sx {
 				ops = append(ops, L(Z(1), Zi(c10RawKind(o.Body)), SBytes(c10Canon(o.Body))))
 			}
 		case "ack":
-			if o.Big {
+			switch {
+			case o.FailAt > 0 && o.Big:
+				ops = append(ops, L(Z(7), Zi(o.H), Zi(o.FailAt-1)))
+			case o.FailAt > 0:
+				ops = append(ops, L(Z(6), Zi(o.H), Zi(o.FailAt-1)))
+			case o.Big:
 				ops = append(ops, L(Z(3), Zi(o.H)))
-			} else {
+			default:
 				ops = append(ops, L(Z(2), Zi(o.H)))
 			}
+		case "session":
+			ops = append(ops, L(Z(5), Z(c10B(c10Granted(o.Resume)))))
 		case "peer_r":
 			// no stanza is ever received in these histories: the answer reports h=0
 			ops = append(ops, L(Z(0), Z(2), SBytes(c10Canon(`<a xmlns="urn:xmpp:sm:3" h="0"></a>`))))
@@ -561,11 +754,17 @@ func (c10) Oracle(inp interface{}, obs Sx) (string, string) {
 	in := inp.(c10In)
 	steps := obs.L
 	if len(steps) > 0 && steps[0].K == "s" {
+		if len(steps) == 2 && steps[1].K == "s" {
+			return "scenario did not run: " + string(bytesOf(steps[1])), "setup-" + string(bytesOf(steps[0]))
+		}
 		return "scenario did not run: " + obs.String(), "setup-" + string(bytesOf(steps[0]))
 	}
 	var sent []string // absolute
 	acked := 0
 	idx := 0
+	// ungranted: some <enabled/> so far did not grant resumption. Stream management is active all the same and every
+	// stanza must be held; a client that stopped holding at that point is reported under its own signature.
+	ungranted := in.Connect && !c10Granted(in.Resume)
 	if in.Connect {
 		// Connect wrote the initial presence after stream management was enabled: stanza number 1 of the session
 		if len(steps) == 0 || len(steps[0].L) != 2 {
@@ -577,6 +776,9 @@ func (c10) Oracle(inp interface{}, obs Sx) (string, string) {
 			return "Connect: expected exactly the initial presence on the wire after <enable/>: " + steps[0].String(), "connect-wire"
 		}
 		sent = append(sent, pres)
+		if len(qx) == 0 && ungranted {
+			return fmt.Sprintf("Connect: stream management is enabled on the session (<enabled resume=%q/>: only resumption is not granted), the initial presence was sent on it and is not acknowledged, but nothing is held", in.Resume), "held-unresumable-connect"
+		}
 		if len(qx) != 1 {
 			return fmt.Sprintf("Connect: 1 stanza sent on the session (the initial presence, after stream management was enabled), 0 acknowledged, but %d held", len(qx)), "held-count-connect"
 		}
@@ -684,8 +886,22 @@ func (c10) Oracle(inp interface{}, obs Sx) (string, string) {
 				wantWire = append(wantWire, sent[acked:]...)
 				wantWire = append(wantWire, "\x00R")
 			}
+			if o.FailAt > 0 {
+				// the retransmission stops at the write the transport refuses; what was not written stays held
+				what += "-cut"
+				if o.FailAt-1 < len(wantWire) {
+					wantWire = wantWire[:o.FailAt-1]
+				}
+			}
+		case "session":
+			// a new session: nothing of the old one is held on it, numbering starts again
+			sent, acked = nil, 0
+			ungranted = ungranted || !c10Granted(o.Resume)
 		}
 		// held = sent[acked:], numbered acked+1...
+		if ungranted && len(qx) == 0 && len(sent)-acked > 0 {
+			return fmt.Sprintf("op %d (%s): stream management is enabled on the session (an <enabled/> did not grant resumption, which is all it refuses), %d stanzas sent on it, %d acknowledged, but nothing is held", oi, what, len(sent), acked), "held-unresumable-" + what
+		}
 		if len(qx) != len(sent)-acked {
 			return fmt.Sprintf("op %d (%s h=%d): %d stanzas sent on the session, %d acknowledged, but %d held", oi, what, o.H, len(sent), acked, len(qx)), "held-count-" + what
 		}
@@ -736,7 +952,11 @@ func (c10) Oracle(inp interface{}, obs Sx) (string, string) {
 func (c10) Key(inp interface{}) (string, bool) {
 	in := inp.(c10In)
 	var b strings.Builder
-	fmt.Fprintf(&b, "c%d r%d k%v st%v:", in.Concurrent, in.Race, in.Connect, in.Stall)
+	fmt.Fprintf(&b, "c%d r%d k%v%s st%v:", in.Concurrent, in.Race, in.Connect, in.Resume, in.Stall)
+	ungranted := in.Connect && !c10Granted(in.Resume)
+	if in.Connect {
+		hist(fmt.Sprintf("session:Connect resume=%q granted=%v", in.Resume, !ungranted))
+	}
 	if len(in.Stall) > 0 {
 		hist("stalled-retransmission")
 	}
@@ -766,6 +986,9 @@ func (c10) Key(inp interface{}) (string, bool) {
 				sent++
 			}
 			hist(fmt.Sprintf("op:send%d", o.Kind))
+			if o.Kind == 0 && ungranted {
+				hist("op:send0-after-ungranted-enabled")
+			}
 		case "raw":
 			k := c10RawKind(o.Body)
 			b.WriteString("w" + fmt.Sprint(k))
@@ -781,6 +1004,12 @@ func (c10) Key(inp interface{}) (string, bool) {
 		case "peer_r":
 			b.WriteString("p")
 			hist("op:peer_r")
+		case "session":
+			g := c10Granted(o.Resume)
+			ungranted = ungranted || !g
+			sent, acked = 0, 0
+			fmt.Fprintf(&b, "S%v", g)
+			hist(fmt.Sprintf("op:session granted=%v", g))
 		case "ack":
 			cls := "<"
 			switch {
@@ -806,6 +1035,21 @@ func (c10) Key(inp interface{}) (string, bool) {
 			}
 			b.WriteString("a" + cls)
 			hist("op:ack" + cls)
+			if o.FailAt > 0 {
+				held := sent - acked
+				switch {
+				case held == 0:
+					hist("op:ack-cut:nothing-held")
+				case o.FailAt <= held:
+					b.WriteString("!")
+					hist("op:ack-cut:in-retransmission")
+				case o.FailAt == held+1:
+					b.WriteString("!r")
+					hist("op:ack-cut:request")
+				default:
+					hist("op:ack-cut:beyond")
+				}
+			}
 		}
 	}
 	return b.String(), nt
